@@ -110,3 +110,23 @@ func init() {
 		return 0
 	})
 }
+
+func init() {
+	register("fs-trace", func(args []string) int {
+		fs := flag.NewFlagSet("fs-trace", flag.ExitOnError)
+		seed := fs.Int64("seed", 1, "seed")
+		n := fs.Int("n", 30, "traces")
+		mb := fs.Int("maxbytes", 100, "MaxBytes")
+		mf := fs.Int("maxfiles", 0, "MaxFiles")
+		toor := fs.Bool("toor", false, "TimestampOnlyOnRotate")
+		out := fs.String("out", "fstraces.ndjson", "trace file")
+		fs.Parse(args)
+		ev, err := fsrep.RecordTraces(fsrep.TraceCfg{MaxBytes: *mb, MaxFiles: *mf, TOOR: *toor}, *seed, *n, *out)
+		if err != nil {
+			fmt.Fprintln(os.Stderr, err)
+			return 2
+		}
+		fmt.Printf("{\"traces\": %d, \"events\": %d}\n", *n, ev)
+		return 0
+	})
+}
